@@ -123,6 +123,11 @@ func (s *session) peer(step int, k string, t int, glue bool) {
 	switch k {
 	case "data":
 		b = BuildFrame(0x80|opText, Payload(t, plen(t)), nil)
+	case "big":
+		// a conforming text message that fits the stream's size limit but not the buffer the message-level
+		// reads are given (64 KiB): the frame APIs deliver it, the message APIs refuse it ("too big") and
+		// start the closing handshake - if nobody has yet
+		b = BuildFrame(0x80|opText, Payload(t, 70000), nil)
 	case "ping":
 		b = BuildFrame(0x80|opPing, Payload(t, plen(t)), nil)
 	case "pong":
